@@ -174,14 +174,21 @@ class OneLineScenario:
         self.dir = Path(work) / f"one{sid}"
         self.has_path = rnd.random() < 0.8
         self.logpath = self.dir / "one.log"
-        self.L = rnd.choice([0, 0, 100000])
-        self.N = rnd.choice([0, 3])
-        self.opts = rnd.choice([0, 0, 1, 2, 4])
+        self.L = rnd.choice([0, 0, 150, 400, 100000])
+        self.N = rnd.choice([0, 1, 2, 3])
+        self.opts = rnd.choice([0, 0, 1, 2, 4, 5, 6, 7])
         self.async_ = rnd.random() < 0.5
         self.msgs = gen_msgs(rnd, rnd.randint(1, 8))
+        # what the arguments ask of the file sink, and (sometimes) a log file of an earlier day that is already there
+        self.fopt = {"L": self.L, "N": self.N, "startup": bool(self.opts & 1), "daily": bool(self.opts & 2), "gz": bool(self.opts & 4),
+                     "old": [f"old line {i + 1} of an earlier day" for i in range(rnd.randint(1, 3))] if rnd.random() < 0.6 else []}
 
     def write(self):
         self.dir.mkdir(parents=True, exist_ok=True)
+        if self.has_path and self.fopt["old"]:
+            self.logpath.write_text("".join(l + "\n" for l in self.fopt["old"]))
+            t = time.time() - 2 * 86400
+            os.utime(self.logpath, (t, t))
         scn = {"path": str(self.logpath) if self.has_path else "", "L": self.L, "N": self.N, "opts": self.opts, "async": self.async_,
                "msgs": self.msgs}
         (self.dir / "scn.json").write_text(json.dumps(scn))
@@ -240,7 +247,9 @@ def run_child(bdir, mode, scn):
         file_lines = lines_of(data)
         nbytes = len(data)
     out = {"stdout": lines_of(p.stdout), "stderr": lines_of(p.stderr), "file": file_lines, "fileExists": exists,
-           "fileBytes": nbytes, "rot": read_rotated(scn) if mode == "ini" else []}
+           "fileBytes": nbytes, "rot": read_rotated(scn)}
+    if mode == "oneline":
+        out["fopt"] = dict(scn.fopt, old=[u(l) for l in scn.fopt["old"]])
     subprocess.run(["rm", "-rf", str(scn.dir)])
     return out, p.returncode
 
